@@ -22,12 +22,17 @@ type Gen struct {
 	IllTyped int
 
 	NoFloat bool // no float literals among the numeric leaves
-	scope   [][]string
-	nvar    int
-	inLoop  int
-	inFn    int
-	inTern  int
-	inDefer int
+	// one in IllScoped statements is a scope probe: a statement that the compiler must either
+	// reject (constant as assignment target, second declaration in the same scope, name that is
+	// not in scope, stray break/continue/return/defer) or accept (the legal look-alikes); 0 = none
+	IllScoped int
+	realConst map[string]bool // names declared with const or as a named function
+	scope     [][]string
+	nvar      int
+	inLoop    int
+	inFn      int
+	inTern    int
+	inDefer   int
 	// operand > 0 while generating an operand of an enclosing expression since the
 	// innermost loop body started: break/continue are not generated there
 	// (known finding C04-break-in-operand: temporaries stay on the operand stack).
@@ -38,7 +43,7 @@ type Gen struct {
 }
 
 func NewGen(r *rand.Rand, budget int) *Gen {
-	return &Gen{R: r, Budget: budget, scope: [][]string{nil}, consts: map[string]bool{}, types: map[string]string{}}
+	return &Gen{R: r, Budget: budget, scope: [][]string{nil}, consts: map[string]bool{}, types: map[string]string{}, realConst: map[string]bool{}}
 }
 
 func (g *Gen) vars() []string {
@@ -728,6 +733,9 @@ func (g *Gen) stmt(d int, last bool) N {
 		return ExprStmt(g.leaf())
 	}
 	top := len(g.scope) == 1 && g.inFn == 0
+	if g.IllScoped > 0 && g.chance(g.IllScoped) {
+		return g.scopeProbe(d)
+	}
 	closureBias := 0
 	if g.Closure {
 		closureBias = 6
@@ -766,6 +774,7 @@ func (g *Gen) stmt(d int, last bool) N {
 		g.declare(n)
 		g.types[n] = "int"
 		g.consts[n] = true
+		g.realConst[n] = true
 		return N{"k": "const", "n": n, "e": e}
 	case c <= 6 && len(g.mut()) > 0:
 		n := g.pick(g.mut())
@@ -939,6 +948,7 @@ func (g *Gen) stmt(d int, last bool) N {
 		g.declare(name)
 		g.types[name] = "fn"
 		g.consts[name] = true
+		g.realConst[name] = true
 		if top {
 			g.Hoist = append(g.Hoist, name)
 		}
@@ -1038,4 +1048,125 @@ func (g *Gen) closureStmt(d int) N {
 	default:
 		return ExprStmt(g.texpr(d, "int"))
 	}
+}
+
+// scopeProbe returns a statement that exercises the compiler's static rules: most of the
+// probes must be rejected with a compile error, some are the legal look-alikes. What the
+// outcome has to be is decided by the specification (Lang!StaticBad), not here.
+func (g *Gen) scopeProbe(d int) N {
+	var consts, here, outer, muts []string
+	for _, v := range g.vars() {
+		switch {
+		case g.realConst[v]:
+			consts = append(consts, v)
+		case !g.consts[v]:
+			muts = append(muts, v)
+		}
+		if g.declaredHere(v) {
+			here = append(here, v)
+		} else if !g.consts[v] && g.types[v] == "int" {
+			outer = append(outer, v)
+		}
+	}
+	undef := func() string { return g.fresh("u") }
+	var p N
+	switch c := g.R.Intn(13); {
+	case c == 0 && len(consts) > 0:
+		p = N{"k": "assign", "n": g.pick(consts), "op": g.pick([]string{"=", "+=", "-=", "*="}), "e": Int(g.R.Intn(5))}
+	case c == 1 && len(consts) > 0:
+		p = N{"k": "postfix", "n": g.pick(consts), "op": g.pick([]string{"++", "--"})}
+	case c == 2 && len(consts) > 0:
+		other := g.pick(consts)
+		if len(muts) > 0 && g.chance(2) {
+			other = g.pick(muts)
+		}
+		ns := []any{g.pick(consts), other}
+		if g.chance(2) {
+			ns[0], ns[1] = ns[1], ns[0]
+		}
+		p = N{"k": "multivar", "ns": ns, "decl": false, "e": List(Int(7), Int(8))}
+	case c == 3 && len(here) > 0:
+		n := g.pick(here)
+		if g.chance(3) {
+			p = N{"k": "const", "n": n, "e": Int(g.R.Intn(5))}
+		} else {
+			p = Var(n, Int(g.R.Intn(5)))
+			if g.chance(3) {
+				p["kw"] = true
+			}
+		}
+	case c == 4:
+		// multi-declaration: a name twice, or a name of this scope again
+		a, b := g.fresh("m"), g.fresh("m")
+		if len(here) > 0 && g.chance(2) {
+			b = g.pick(here)
+		} else {
+			b = a
+		}
+		ns := []any{a, b}
+		if g.chance(2) {
+			ns[0], ns[1] = ns[1], ns[0]
+		}
+		p = N{"k": "multivar", "ns": ns, "decl": true, "e": List(Int(1), Int(2))}
+	case c == 5:
+		p = ExprStmt(Bin("+", Int(1), Id(undef())))
+	case c == 6:
+		switch g.R.Intn(3) {
+		case 0:
+			p = N{"k": "assign", "n": undef(), "op": g.pick([]string{"=", "+="}), "e": Int(1)}
+		case 1:
+			p = N{"k": "postfix", "n": undef(), "op": "++"}
+		default:
+			p = N{"k": "multivar", "ns": []any{undef(), undef()}, "decl": false, "e": List(Int(1), Int(2))}
+		}
+	case c == 7:
+		// a block-scoped name used after its block has ended
+		z := g.fresh("z")
+		inner := []N{
+			ExprStmt(If(Bool(true), []any{Var(z, Int(1))}, nil)),
+			N{"k": "for", "init": []any{Var(z, Int(0))}, "hascond": true, "cond": Bin("<", Id(z), Int(1)), "post": []any{N{"k": "postfix", "n": z, "op": "++"}}, "body": []any{ExprStmt(Id(z))}},
+			N{"k": "range", "style": "range", "vars": []any{z}, "c": Int(2), "body": []any{ExprStmt(Id(z))}},
+			Var(g.fresh("g"), N{"k": "func", "params": []any{N{"n": z, "hasdef": false, "def": Nil()}}, "body": []any{ExprStmt(Id(z))}, "name": ""}),
+		}[g.R.Intn(4)]
+		p = ExprStmt(If(Bool(true), []any{inner, ExprStmt(Id(z))}, nil))
+	case c == 8:
+		// use before the declaration in the same block
+		z := g.fresh("z")
+		p = ExprStmt(If(Bool(true), []any{Print(Id(z)), Var(z, Int(1))}, nil))
+	case c == 9:
+		switch g.R.Intn(4) {
+		case 0:
+			p = N{"k": "break"}
+		case 1:
+			p = N{"k": "continue"}
+		case 2:
+			p = N{"k": "return", "has": true, "e": Int(1)}
+		default:
+			p = N{"k": "defer", "e": Call(Id("print"), Int(1))}
+		}
+	case c == 10 && len(outer) > 0:
+		// legal: the name of an enclosing scope declared again in a nested block
+		n := g.pick(outer)
+		p = ExprStmt(If(Bool(true), []any{Var(n, Int(50+g.R.Intn(9))), Print(Id(n))}, nil))
+	case c == 11 && len(consts) > 0:
+		// legal: a constant shadowed by a variable of a nested block, which is then assigned
+		n := g.pick(consts)
+		p = ExprStmt(If(Bool(true), []any{Var(n, Int(60)), N{"k": "postfix", "n": n, "op": "++"}, Print(Id(n))}, nil))
+	default:
+		// a function literal that names a variable declared only after it
+		z := g.fresh("z")
+		p = ExprStmt(If(Bool(true), []any{
+			Var(g.fresh("g"), N{"k": "func", "params": []any{}, "body": []any{N{"k": "return", "has": true, "e": Id(z)}}, "name": ""}),
+			Var(z, Int(1))}, nil))
+	}
+	// the rules hold in code that never runs, too
+	switch g.R.Intn(6) {
+	case 0:
+		return ExprStmt(If(Bool(false), []any{p}, nil))
+	case 1:
+		return Var(g.fresh("g"), N{"k": "func", "params": []any{}, "body": []any{p}, "name": ""})
+	case 2:
+		return N{"k": "for", "init": []any{}, "hascond": true, "cond": Bool(false), "post": []any{}, "body": []any{p}}
+	}
+	return p
 }
